@@ -42,6 +42,8 @@ ATOMS = [
     "any", "all",
     # punctuation
     "(", ")", ",", "/", ":", "=", "-", " ", "'", "$", ".", "+", "%27", "\x00", "x=1", "(1,2)",
+    # characters that case-fold into ASCII keyword letters under re.IGNORECASE (long s, Kelvin sign, dotted I)
+    "fal\u017fe", " \u017fub ", "\u017f", "\u212a", "\u0130n", "tr\u00fce", "nu\u217c\u217c",
 ]
 
 LIB_ERRORS = ("TokenizingException", "ParsingException", "UnknownFunctionException",
@@ -176,7 +178,7 @@ def mutate(text, seed):
     return "".join(toks)
 
 
-GRAMMAR_CHARS = "ab1209 '()/,:=-.+TZPeEtruflnodiv$%_\t\n"
+GRAMMAR_CHARS = "ab1209 '()/,:=-.+TZPeEtruflnodiv$%_\t\n\u017f\u212a\u0130\u0131"
 
 
 def replay(case):
